@@ -5,7 +5,7 @@ prop("C04", pkg="c04",
           "sets (map[K]struct{}), structs, *struct, *scalar, **bool, union structs, named corpus types incl. a recursive one; 22 % of the top-level types (and some nested "
           "ones) carry 1-2 chains of ANONYMOUS embedding 1..4 levels deep (30/20/30/20 %), each level by value or through a pointer, with 2-3 tagged sibling fields at the "
           "deepest level and 1-2 fields at every intermediate level, whose values are distinct and non-zero (labels embed-depth=1..4; depth >= 3 in ~4.4 % of all types); "
-          "tags required / optional / enum), 2-5 value recipes for it (boundary-weighted integers, special float bit patterns, list lengths 0/1/14/15/16/>16/127+), "
+          "tags required / optional / enum), 2-5 value recipes for it (boundary-weighted integers, special float bit patterns, list lengths 0/1/14/15/16/>16/127+; a small share of the strings / binaries - field values, list elements, map keys and values - has 65537, 70000 or 131073 bytes, above the 64 KiB up to which the readers allocate at once), "
           "and a protocol schedule; ~1.1 % of the cases instead use tgen.BigSpec: a list (of bool, i8..i64, double, string or struct), set or map that REALLY holds 1025, 1100, "
           "2048, 2049 or 5001 distinct elements (the decoder preallocates 1024), at the top level or nested in a struct, a pointer-to struct, a list or a map, with a "
           "second value of 1024, 1026, 3000 or 5001 elements. Every value is put through Marshal/Unmarshal and a fresh Encoder/Decoder for all three protocols, through one Encoder and one "
@@ -17,7 +17,7 @@ prop("C04", pkg="c04",
      thorough=dict(shards=16, scale=4, timeout=3000),
      technique="property-based testing (rapid) with generated Go struct types: round trip, reused-vs-fresh codec and cross-protocol metamorphic oracles under a "
                "reflection-based equality modulo nil/empty collections",
-     level_text="Exploration: ~0.16 M generated (type, values, codec schedule) cases per quick run (~0.64 M thorough, with up to 10 values per type) are round-tripped through all three protocols "
+     level_text="Exploration: ~0.13 M generated (type, values, codec schedule) cases per quick run (~0.5 M thorough, with up to 10 values per type) are round-tripped through all three protocols "
                 "and every codec mode; any value that does not come back equal (nil and empty collections identified, floats by bit pattern), any byte difference "
                 "between a reused and a fresh Encoder, any disagreement between protocols, and any panic is reported with the shrunk case. Nothing is proved "
                 "about types or values outside the generator's bounds (nesting depth <= 3 (4 thorough), <= 140 fields, collections <= 130 elements).",
